@@ -2,8 +2,9 @@ SPECIFICATION Spec
 CONSTANTS
   NWorkers = 2
   MaxChunks = 2
+  Protocol = "fixed"
   FaultTasks = 2
-  SetupIds = {"inplace2", "separate", "bundle", "bundleinplace", "sync", "syncinplace", "alias", "hard", "overwrite"}
-INVARIANTS NeverLost ReadOnlyUntouched OthersUntouched DoneClean DestinationsComplete NoDescriptorLeak
+  SetupIds = {"inplace2", "separate", "bundle", "bundleinplace", "sync", "syncinplace", "alias", "hard", "overwrite", "bak"}
+INVARIANTS NeverLost ReadOnlyUntouched OthersUntouched DoneClean NoLeftoverBackup DestinationsComplete NoDescriptorLeak
 PROPERTY BakRemovedOnlyAfterComplete
 CHECK_DEADLOCK FALSE
